@@ -214,12 +214,16 @@ RULES = {
     "targets": {"flags": ["-ftargets"], "action": "store_split", "sep": ",", "format": "t-$value", "dest": "passes", "default": ["t-a"]},
     "arch": {"flags": ["-farch", "--arch"], "action": "extend_match", "pattern": "x(\\d)", "format": "a$value", "dest": "passes", "default": ["a1"]},
     "inc": {"flags": ["-finc"], "action": "extend_match", "pattern": "[^:]+", "dest": "include_paths"},
+    # a second pass-selecting extend_match rule with its own default (only explored together with "arch"): the
+    # "first use replaces the default" state is per flag, not per destination
+    "feat": {"flags": ["-ffeat"], "action": "extend_match", "pattern": "f(\\d)", "format": "f$value", "dest": "passes", "default": ["f1"]},
 }
 MODES = {"m1": {"defines": ["M1"], "include_paths": ["/m1"]}, "m2": {"defines": ["M2"], "include_files": ["m2.h"]}}
 PASSES = {"p1": {"defines": ["P1"], "modes": ["m2"]}, "t-a": {"defines": ["TA"]}, "t-b": {"defines": ["TB"], "modes": ["m1"]},
+          "f1": {"defines": ["F1"]}, "f2": {"defines": ["F2"], "modes": ["m1"]},
           "a1": {"defines": ["A1"]}, "a2": {"defines": ["A2"], "include_paths": ["/a2"]}, "a3": {"defines": ["A3"], "modes": ["m1", "m2"]}}
 ARGS = [["-fm1"], ["-fp1"], ["-fdef"], ["-ftargets=a,b"], ["-ftargets=b"], ["-farch=x2"], ["-farch=x1x3"], ["--arch", "x2"], ["-finc=/q:/r"],
-        ["-DU"], ["-unknown"], ["-I", "/i"]]
+        ["-DU"], ["-unknown"], ["-I", "/i"], ["-ffeat=f2"]]
 OPTION_SETS = [[], ["-DIMPL"], ["-fm1"], ["-DIMPL", "-farch=x3"]]
 
 
@@ -234,7 +238,7 @@ def user_cfg(name, rules, override, options, extra=""):
     out.append("")
     for r in rules:
         d = dict(RULES[r])
-        if r == "arch":
+        if r in ("arch", "feat"):
             d["override"] = override
         out.append(f"[[compiler.{name}.parser]]")
         for k, v in d.items():
@@ -312,7 +316,7 @@ def ref_parse(rules, override, options, argv, base=None):
                     pflag[flag] = vals
                     if flag != key:
                         pass
-                elif override and r == "arch" and not first_use.get(key):
+                elif override and r in ("arch", "feat") and not first_use.get(key):
                     pflag[key] = list(vals)
                     first_use[key] = True
                 else:
@@ -602,8 +606,9 @@ def run(tier):
         ra = par.pmap(_check_builtin, [bc[i:i + 60] for i in range(0, len(bc), 60)])
         graphs = list(itertools.product(TARGETS, repeat=3))
         rb = par.pmap(_check_alias, [graphs[i:i + 14] for i in range(0, len(graphs), 14)])
-        names = list(RULES)
+        names = [r for r in RULES if r != "feat"]
         subsets = [c for r in range(len(names) + 1) for c in itertools.combinations(names, r)]
+        subsets += [c + ("feat",) for c in subsets if "arch" in c]
         combos = [(s, ov, o) for s in subsets for ov in ((False, True) if "arch" in s else (False,)) for o in OPTION_SETS]
         if tier == "quick":     # seed-selected extension: triples for a seed-chosen rule subset
             ext = [(subsets[(env.SEED * 11 + 5) % len(subsets)], bool(env.SEED % 2), OPTION_SETS[env.SEED % 4])]
